@@ -16,7 +16,7 @@ pub use crate::hash::{explain_hash_build, hash_build, BuildHash};
 pub use crate::load::{read as load_read, State as LoadState};
 pub use crate::process::{run_command, Termination};
 pub use crate::progress::Progress;
-pub use crate::progress_fancy::verif_hooks::{progress_bar, task_message, truncate};
+pub use crate::progress_fancy::verif_hooks::{progress_bar, render_frame, task_message, truncate};
 pub use crate::run::verif_build;
 pub use crate::smallmap::SmallMap;
 pub use crate::task::verif_hooks::{extract_showincludes, find_last_line, read_depfile};
